@@ -56,6 +56,9 @@ func (v Val) Norm() string {
 		if math.IsNaN(v.F) {
 			return "FNaN"
 		}
+		if v.F == 0 {
+			return "F0"
+		}
 		return "F" + strconv.FormatFloat(v.F, 'g', -1, 64)
 	case VBool:
 		if v.B {
